@@ -39,7 +39,7 @@ var c12Kinds = []string{
 	"upd:valid", "upd:fewer-parts", "upd:more-parts", "upd:actor-max", "upd:version-max", "upd:other-channel", "upd:unknown-channel", "upd:garbage-sig", "upd:add-suballoc", "upd:final",
 	"upd:locked-drop-all", "upd:locked-drop-first", "upd:locked-swap", "upd:locked-dup", "upd:virtual-id",
 	// a sub-channel proposal whose opening the sender abandons after the acceptance, followed by the funding update it announced
-	"sprop:abandoned-then-funded", "lprop:participant-empty", "vprop:proposer-empty", "pacc:ledger-for-pending-empty-participant",
+	"sprop:abandoned-then-funded", "sprop:completed-then-funded-late", "lprop:participant-empty", "vprop:proposer-empty", "pacc:ledger-for-pending-empty-participant",
 	// update responses
 	"uacc:unknown-version", "uacc:pending-garbage-sig", "urej:unknown-version", "uacc:unknown-channel", "urej:pending", "uacc:pending-twice",
 	// virtual channel funding / settlement proposals
@@ -232,7 +232,7 @@ func (a *c12adv) send(step int, st *kernel.Step) bool {
 	if fromZ {
 		from, fromAcc = a.zWire, gen.Pool(6)[5].Addr
 	}
-	if kind == "sprop:abandoned-then-funded" {
+	if kind == "sprop:abandoned-then-funded" || kind == "sprop:completed-then-funded-late" {
 		// The counterparty proposes a sub-channel, lets the victim accept and
 		// never sends its signature on the initial state; after the victim has
 		// given up it sends the parent update that would have funded the
@@ -256,6 +256,16 @@ func (a *c12adv) send(step int, st *kernel.Step) bool {
 			return true // the proposal was refused (e.g. the parent was locked): nothing to follow up
 		}
 		a.abandoned = l[len(l)-1]
+		if kind == "sprop:completed-then-funded-late" {
+			// the sender does complete the signature exchange on the initial state
+			// (which follows from the proposal) and only the funding comes too late
+			sp := m1.(*client.SubChannelProposalMsg)
+			v0 := &channel.State{ID: a.abandoned, Version: 0, App: channel.NoApp(), Data: channel.NoData(), Allocation: sp.InitBals.Clone()}
+			sig := &client.ChannelUpdateAccMsg{ChannelID: a.abandoned, Version: 0, Sig: signAs(t.A, v0)}
+			if t.w.Bus.Inject(&wire.Envelope{Sender: from, Recipient: t.H.Wire, Msg: sig}, s.Delay(fmt.Sprintf("inject-sig:%d", step), 0, 100*time.Microsecond)) == nil {
+				s.Count("fault.msg.sprop:initial-sig", 1)
+			}
+		}
 		time.Sleep(t.H.CtxTimeout + 2*time.Second) // the victim's opening attempt has timed out by now
 		kind = "sprop:funding-of"
 	}
